@@ -11,7 +11,7 @@ pub fn dump<'tcx>(cx: &Cx<'tcx>) -> J {
     let mut out = Vec::new();
     for ldid in tcx.hir_body_owners() {
         let kind = tcx.def_kind(ldid);
-        if !matches!(kind, DefKind::Fn | DefKind::AssocFn) {
+        if !matches!(kind, DefKind::Fn | DefKind::AssocFn | DefKind::Const { .. } | DefKind::AssocConst { .. } | DefKind::Static { .. }) {
             continue;
         }
         let Some(body) = tcx.hir_maybe_body_owned_by(ldid) else { continue };
@@ -20,6 +20,7 @@ pub fn dump<'tcx>(cx: &Cx<'tcx>) -> J {
         let params: Vec<J> = body.params.iter().map(|p| d.pat(p.pat)).collect();
         out.push(J::Obj(vec![
             ("path", J::s(cx.path(ldid.to_def_id()))),
+            ("kind", J::s(match kind { DefKind::Fn | DefKind::AssocFn => "fn", DefKind::Static { .. } => "static", _ => "const" })),
             ("params", J::Arr(params)),
             ("body", d.expr(body.value)),
         ]));
